@@ -16,8 +16,9 @@ CONSTANTS MaxLeaves,     \* leaves in one argument list
           MaxCont,       \* list/dict literals in one argument list
           MaxDepth,      \* nesting depth of literals
           MaxWidth,      \* items per literal
+          MaxListWidth,  \* items per list literal (<= MaxWidth; smaller: the bound is spent on dict entries)
           MaxArgs,       \* arguments
-          Rich,          \* TRUE: the rich leaf alphabet, FALSE: the small one
+          Alpha,         \* leaf alphabet: "small", "rich" (syntax-sensitive), "vals" / "core" (value-sensitive)
           AllowInvalid,  \* generate (at most one) documented-invalid construct
           StyleFrom, StyleTo    \* slice of Styles whose texts this run exports
 
@@ -76,13 +77,39 @@ RichLeaves ==
    Filt(Var("xs"), <<FlA("join", Trans(1))>>),
    Filt(Var("d2"), <<FlA("default", Var("d"))>>),
    Var("only")}
-Leaves == IF Rich THEN RichLeaves ELSE SmallLeaves
+\* Value-sensitive alphabets.  The property holds "against all context values", so every argument
+\* position (argument, keyword / aggregate value, list item, dict key, dict value, spread operand,
+\* filter argument, single-tag and rendered nested string) must see the values that are easily
+\* confused with "nothing" - None (variable, literal, failed lookup, item of a list), False, 0, "",
+\* a missing variable - and text with the HTML-special characters & < > ' " (plain and marked safe).
+ValLeaves ==
+  {Var("nn"), Var("None"), Var("f"), Var("True"), Var("z"), Var("es"), Str(6), Var("nope"), Var("hs.1"), Var("dh.u"),
+   Var("amp"), Var("h"), Var("sf"), Str(10), Var("hs"), Var("dn"), Var("dh"),
+   Tpl(9), Tpl(10), Tpl(11), Tpl(12), Tpl(13), Tpl(14), Tpl(15), Tpl(16), Tpl(17), Tpl(18), Tpl(19), Tpl(20),
+   Tpl(21), Tpl(22),
+   Filt(Var("nn"), <<FlA("default_if_none", Var("amp"))>>),
+   Filt(Var("es"), <<FlA("default", Var("nn"))>>),
+   Filt(Var("z"), <<FlA("default", Str(10))>>),
+   Filt(Var("h"), <<Fl("upper")>>),
+   Filt(Var("amp"), <<Fl("escape")>>),
+   Filt(Var("hs"), <<Fl("last")>>),
+   Filt(Var("amp"), <<FlA("cut", Str(4)), FlA("default", Var("h"))>>)}
+ValKeys ==
+  {Var("nn"), Var("None"), Var("False"), Var("z"), Var("es"), Str(6), Var("hs.1"),
+   Var("amp"), Var("h"), Var("sf"), Str(10), Tpl(9), Tpl(10), Tpl(11), Tpl(14), Tpl(21), Tpl(22),
+   Filt(Var("h"), <<Fl("upper")>>), Filt(Var("hs"), <<Fl("last")>>)}
+\* the core of it, for deeper / wider lists
+CoreLeaves == {Var("nn"), Var("z"), Var("amp"), Tpl(9), Tpl(14), Var("hs"), Var("dn"), Var("dh")}
+CoreKeys   == {Var("nn"), Var("es"), Var("amp"), Tpl(10), Tpl(11)}
+Leaves == CASE Alpha = "rich" -> RichLeaves [] Alpha = "vals" -> ValLeaves [] Alpha = "core" -> CoreLeaves
+            [] OTHER -> SmallLeaves
 \* leaves allowed as a dictionary key (no filter argument: inside a dict literal the first
 \* `:` ends the key - documented restriction)
 SmallKeys == {Str(4), Filt(Str(4), <<Fl("upper")>>)}
 RichKeys  == {Str(2), Str(4), Str(5), Str(6), Var("x"), Var("s"), Num("42"), Trans(1), Tpl(7),
               Filt(Str(4), <<Fl("upper")>>), Filt(Var("s"), <<Fl("upper"), Fl("lower")>>)}
-KeyLeaves == IF Rich THEN RichKeys ELSE SmallKeys
+KeyLeaves == CASE Alpha = "rich" -> RichKeys [] Alpha = "vals" -> ValKeys [] Alpha = "core" -> CoreKeys
+               [] OTHER -> SmallKeys
 \* Keyword names are fixed per argument position (which name is used does not interact with
 \* the value): the i-th argument, if a keyword, is named KwName[i]; if an aggregate, AggName[i].
 KwName  == <<"a", "@c-d.e#f", "b_1", "data-x", "z9">>
@@ -100,12 +127,21 @@ Depth(v) ==
     [] OTHER          -> 0
 IsValue(v) == v.t \notin {"spread", "pair"}
 BaseOf(v) == IF v.t = "filt" THEN v.b ELSE v
-ListyLeaf(v) == BaseOf(v).t = "var" /\ BaseOf(v).n \in {"xs", "ys", "e0"} /\
-                (v.t = "filt" => v = Filt(Var("xs"), <<FlA("slice", Str(9))>>))
-DictyLeaf(v) == \/ v.t = "var" /\ v.n \in {"d", "d2"}
-                \/ v = Filt(Var("d2"), <<FlA("default", Var("d"))>>)
+ListyLeaf(v) == \/ /\ BaseOf(v).t = "var" /\ BaseOf(v).n \in {"xs", "ys", "e0"}
+                   /\ (v.t = "filt" => v = Filt(Var("xs"), <<FlA("slice", Str(9))>>))
+                \/ v.t = "var" /\ v.n = "hs"
+                \/ TplVar(v) /\ Ctx[SpreadBase(v).n].t = "list"
+\* operand that may be spread into keyword arguments (every key a str) ...
+KwDictyLeaf(v) == \/ v.t = "var" /\ v.n \in {"d", "d2", "dh"}
+                  \/ v = Filt(Var("d2"), <<FlA("default", Var("d"))>>)
+                  \/ TplVar(v) /\ StrKeyed(SpreadBase(v).n)
+\* ... or into a dict literal (any hashable key: None, 0, "", text)
+DictyLeaf(v) == \/ KwDictyLeaf(v)
+                \/ v.t = "var" /\ v.n = "dn"
+                \/ TplVar(v) /\ Ctx[SpreadBase(v).n].t = "dict"
 ListOp(v) == v.t = "list" \/ ListyLeaf(v)
 DictOp(v) == v.t = "dict" \/ DictyLeaf(v)
+KwDictOp(v) == v.t = "dict" \/ KwDictyLeaf(v)
 Top(n) == SubSeq(stk, Len(stk) - n + 1, Len(stk))
 Below(n) == SubSeq(stk, 1, Len(stk) - n)
 Count(s, P(_)) == Cardinality({i \in 1..Len(s) : P(s[i])})
@@ -113,11 +149,12 @@ Count(s, P(_)) == Cardinality({i \in 1..Len(s) : P(s[i])})
 \* keyword names a complete argument contributes (to keep top-level keys unique: a key given
 \* twice, or by a spread and a keyword, is outside this property - see C11)
 RECURSIVE LitKeys(_, _)
-VarKeys(n) == {Ctx[n].items[i].k.s : i \in 1..Len(Ctx[n].items)}
+VarKeys(n) == {Ctx[n].items[i].k.s : i \in {j \in 1..Len(Ctx[n].items) : Ctx[n].items[j].k.t = "str"}}
 OperandKeys(v) ==
   CASE v.t = "var"  -> IF Ctx[v.n].t = "dict" THEN VarKeys(v.n) ELSE {}
     [] v.t = "filt" -> VarKeys("d") \cup VarKeys("d2")
     [] v.t = "dict" -> LitKeys(v.items, 1)
+    [] TplVar(v)    -> IF Ctx[SpreadBase(v).n].t = "dict" THEN VarKeys(SpreadBase(v).n) ELSE {}
     [] OTHER        -> {}
 LitKeys(items, i) ==
   IF i > Len(items) THEN {}
@@ -128,7 +165,7 @@ RECURSIVE PlainKeys(_, _)
 PlainKeys(items, i) ==
   IF i > Len(items) THEN TRUE
   ELSE /\ IF items[i].t = "spread"
-          THEN (IF items[i].v.t = "dict" THEN PlainKeys(items[i].v.items, 1) ELSE TRUE)
+          THEN (IF items[i].v.t = "dict" THEN PlainKeys(items[i].v.items, 1) ELSE KwDictyLeaf(items[i].v))
           ELSE items[i].t = "pair" /\ items[i].k \in {Str(4), Str(5)}
        /\ PlainKeys(items, i + 1)
 ArgKeys(a) ==
@@ -176,6 +213,7 @@ MkPair ==
 
 Mk(kind, n) ==
   /\ n <= Len(stk) /\ nc < MaxCont /\ Len(args) < MaxArgs
+  /\ kind = "list" => n <= MaxListWidth
   /\ LET items == Top(n)
          fits(e) == IF kind = "list" THEN IsValue(e) \/ (e.t = "spread" /\ e.tok = "*")
                     ELSE e.t = "pair" \/ (e.t = "spread" /\ e.tok = "**")
@@ -201,9 +239,9 @@ FinishAgg == LET pk == AggName[Len(args) + 1] IN
 FinishSpread(tok) ==
   /\ Single
   /\ LET v == stk[1] IN
-     /\ ListOp(v) \/ DictOp(v)
+     /\ ListOp(v) \/ KwDictOp(v)
      /\ ListOp(v) => ~KwSeen
-     /\ DictOp(v) => (v.t = "dict" => PlainKeys(v.items, 1)) /\ OperandKeys(v) \cap UsedKeys = {}
+     /\ KwDictOp(v) => (v.t = "dict" => PlainKeys(v.items, 1)) /\ OperandKeys(v) \cap UsedKeys = {}
      /\ tok # "..." => AllowInvalid /\ ~bad
      /\ Add(Spread(tok, v)) /\ bad' = (bad \/ tok # "...")
 FinishKwSpread ==
